@@ -36,7 +36,8 @@ CONSTANTS N,          \* at most N instances in the universe
           MaxSize,    \* shard sizes 0..MaxSize
           MaxEvents,  \* ring changes per behaviour
           ZaModes,    \* subset of BOOLEAN: zone-awareness settings explored
-          FullMem     \* TRUE: the initial ring registers the whole universe
+          FullMem,    \* TRUE: the initial ring registers the whole universe
+          MaxRO0      \* at most MaxRO0 instances are read-only initially (more can switch later)
 
 VARIABLES phase, lay, C, now, hist
 vars == <<phase, lay, C, now, hist>>
@@ -71,7 +72,7 @@ Start ==
        IN \E za \in ZaModes :
           \E zone \in IF za THEN ZoneMaps(n) ELSE {[i \in 1..n |-> 1]} :
           \E mem \in IF FullMem THEN {1..n} ELSE (SUBSET (1..n)) \ {{}} :
-          \E ros \in SUBSET mem :
+          \E ros \in {r \in SUBSET mem : Cardinality(r) <= MaxRO0} :
           \E unset \in IF MaxEvents > 0 /\ ros # {} THEN BOOLEAN ELSE {FALSE} :
             LET circle(z) == IF za THEN {i \in 1..n : zone[i] = z} ELSE IF z = 1 THEN 1..n ELSE {}
                 \* number of walks of circle z that can succeed
@@ -146,7 +147,9 @@ Consistency ==
 (* - with zone-awareness - had the zones of the current ring                *)
 InWindow(v, L) == /\ hist[v].to = 0 \/ hist[v].to >= now - L
                   /\ C.za => hist[v].zs = Zones(C)
-Lookbacks == (1..(now - T0 + 1)) \cup {now - 1, now}
+(* look-back periods: one per number of changes covered, plus the one that *)
+(* reaches back to the registration of the initial instances               *)
+Lookbacks == (1..(now - T0 + 1)) \cup {now - 1}
 
 LookbackSuperset ==
     Running => \A s \in Sizes : \A L \in Lookbacks :
